@@ -250,13 +250,14 @@ class PeekV(object):
 
 
 class AdaptV(object):
-    """Map / FilterMap / Cloned adaptor"""
-    __slots__ = ('kind', 'it', 'fn')
+    """Map / FilterMap / Filter / Chain / FlatMap / Cloned adaptor (`cur`: the inner iterator a FlatMap is currently draining)"""
+    __slots__ = ('kind', 'it', 'fn', 'cur')
 
-    def __init__(self, kind, it, fn=None):
+    def __init__(self, kind, it, fn=None, cur=None):
         self.kind = kind
         self.it = it
         self.fn = fn
+        self.cur = cur
 
 
 class FmtArgs(object):
@@ -343,7 +344,7 @@ def copy_value(v):
     if isinstance(v, PeekV):
         return PeekV(copy_value(v.it))
     if isinstance(v, AdaptV):
-        return AdaptV(v.kind, copy_value(v.it), v.fn)
+        return AdaptV(v.kind, copy_value(v.it), v.fn, copy_value(v.cur))
     if isinstance(v, Closure):
         return Closure(v.name, [copy_value(c) for c in v.captures])
     if isinstance(v, FmtArgs):
